@@ -71,7 +71,7 @@ pub const HOSTS: [&str; 8] = [
     "[fe80::1%25eth0]",
 ];
 pub const PORTS: [Option<u16>; 7] = [None, Some(1), Some(80), Some(443), Some(631), Some(8443), Some(65535)];
-pub const PATHS: [&str; 7] = ["", "/", "/p", "/printers/a%20b", "/a//b;c=d", "/~x/", "/ü"];
+pub const PATHS: [&str; 9] = ["", "/", "/p", "/printers/a%20b", "/a//b;c=d", "/~x/", "/ü", "//ipp/print", "//"];
 pub const QUERIES: [Option<&str>; 5] = [None, Some(""), Some("q=1"), Some("a=b&c=d"), Some("u:p@evil")];
 
 pub fn radices() -> [u64; 6] {
@@ -155,7 +155,7 @@ mod tests {
 
     #[test]
     fn split_roundtrip_on_product() {
-        assert_eq!(total(), 62720);
+        assert_eq!(total(), 80640);
         for i in 0..(total() + total_ext()) {
             let c = case(i);
             let p = split(&c.text).unwrap();
